@@ -4,6 +4,7 @@ import (
 	"encoding/json"
 	"fmt"
 	"math/big"
+	"os"
 	"reflect"
 	"sort"
 	"strings"
@@ -235,8 +236,8 @@ func c18Paging(run *core.Run) {
 	}
 
 	z := node.Z{N: p}
-	sa, pa, pl, ta, ac, sp, se, li, br := embedded.NewStakeApi(z), embedded.NewPillarApi(z, true), embedded.NewPlasmaApi(z), embedded.NewTokenApi(z), embedded.NewAcceleratorApi(z),
-		embedded.NewSporkApi(z), embedded.NewSentinelApi(z), embedded.NewLiquidityApi(z), embedded.NewBridgeApi(z)
+	sa, pa, pl, ta, ac, sp, se, li := embedded.NewStakeApi(z), embedded.NewPillarApi(z, true), embedded.NewPlasmaApi(z), embedded.NewTokenApi(z), embedded.NewAcceleratorApi(z),
+		embedded.NewSporkApi(z), embedded.NewSentinelApi(z), embedded.NewLiquidityApi(z)
 	u1, u2, u3 := g.User1.Address, g.User2.Address, g.User3.Address
 	var qs []pagedQuery
 	add := func(name string, call func(page, size uint32) (interface{}, error)) {
@@ -247,9 +248,6 @@ func c18Paging(run *core.Run) {
 	add("token.getAll", func(a, b uint32) (interface{}, error) { return ta.GetAll(a, b) })
 	add("accelerator.getAll", func(a, b uint32) (interface{}, error) { return ac.GetAll(a, b) })
 	add("spork.getAll", func(a, b uint32) (interface{}, error) { return sp.GetAll(a, b) })
-	add("bridge.getAllNetworks", func(a, b uint32) (interface{}, error) { return br.GetAllNetworks(a, b) })
-	add("bridge.getAllWrapTokenRequests", func(a, b uint32) (interface{}, error) { return br.GetAllWrapTokenRequests(a, b) })
-	add("bridge.getAllUnwrapTokenRequests", func(a, b uint32) (interface{}, error) { return br.GetAllUnwrapTokenRequests(a, b) })
 	for _, o := range []struct {
 		n string
 		a types.Address
@@ -270,6 +268,68 @@ func c18Paging(run *core.Run) {
 	for _, q := range qs {
 		pagingLaw(run, q, stats)
 	}
+	// the bridge's lists, on a node of their own: the prepared bridge of the Bridge.tla replay, seven wrap requests on three
+	// kinds of pair, five unwrap requests of which one is revoked
+	func() {
+		fx, err := buildBridgeFixture()
+		if err != nil {
+			core.Fatal("%v", err)
+		}
+		defer os.RemoveAll(fx.Dir)
+		bridgeConstants()
+		b, err := node.New("rpc-bridge", node.Options{Producer: true, Dir: fx.Dir})
+		if err != nil {
+			core.Fatal("%v", err)
+		}
+		defer b.Stop()
+		const evm = "0xb794f5ea0ba39494ce839613fffba74279579268"
+		for i, cfg := range []string{"plain", "proper", "burnable", "plain", "proper", "plain", "burnable"} {
+			u := []*wallet.KeyPair{g.User1, g.User2}[i%2]
+			if _, err := b.Submit(&nom.AccountBlock{BlockType: nom.BlockTypeUserSend, Address: u.Address, ToAddress: types.BridgeContract, TokenStandard: fx.Tokens[cfg], Amount: big.NewInt(int64(1000 + i)),
+				Data: definition.ABIBridge.PackMethodPanic(definition.WrapTokenMethodName, bridgeNet, bridgeChain, evm)}, u); err != nil {
+				core.Fatal("paging fixture: wrap refused: %v", err)
+			}
+			core.Must(b.Produce(0))
+		}
+		for i := 1; i <= 5; i++ {
+			to := []*wallet.KeyPair{g.User1, g.User2}[i%2].Address
+			tx := types.NewHash([]byte(fmt.Sprintf("paging-unwrap-%d", i)))
+			amt := big.NewInt(int64(100 * i))
+			if _, err := b.Submit(&nom.AccountBlock{BlockType: nom.BlockTypeUserSend, Address: g.User3.Address, ToAddress: types.BridgeContract, TokenStandard: types.ZeroTokenStandard, Amount: big.NewInt(0),
+				Data: definition.ABIBridge.PackMethodPanic(definition.UnwrapTokenMethodName, bridgeNet, bridgeChain, tx, uint32(i), to, bridgePairAddr["plain"], amt, bridgeUnwrapSig(tx, uint32(i), to, bridgePairAddr["plain"], amt))}, g.User3); err != nil {
+				core.Fatal("paging fixture: unwrap refused: %v", err)
+			}
+			core.Must(b.Produce(0))
+		}
+		if _, err := b.Submit(&nom.AccountBlock{BlockType: nom.BlockTypeUserSend, Address: g.User5.Address, ToAddress: types.BridgeContract, TokenStandard: types.ZeroTokenStandard, Amount: big.NewInt(0),
+			Data: definition.ABIBridge.PackMethodPanic(definition.RevokeUnwrapRequestMethodName, types.NewHash([]byte("paging-unwrap-2")), uint32(2))}, g.User5); err != nil {
+			core.Fatal("paging fixture: revoke refused: %v", err)
+		}
+		core.Must(b.ProduceN(4))
+		ba := embedded.NewBridgeApi(node.Z{N: b})
+		for _, q := range []pagedQuery{
+			{"bridge.getAllNetworks", func(x, y uint32) (interface{}, error) { return ba.GetAllNetworks(x, y) }},
+			{"bridge.getAllWrapTokenRequests", func(x, y uint32) (interface{}, error) { return ba.GetAllWrapTokenRequests(x, y) }},
+			{"bridge.getAllWrapTokenRequestsByToAddress", func(x, y uint32) (interface{}, error) { return ba.GetAllWrapTokenRequestsByToAddress(evm, x, y) }},
+			{"bridge.getAllWrapTokenRequestsByToAddressNetworkClassAndChainId", func(x, y uint32) (interface{}, error) {
+				return ba.GetAllWrapTokenRequestsByToAddressNetworkClassAndChainId(evm, bridgeNet, bridgeChain, x, y)
+			}},
+			{"bridge.getAllUnsignedWrapTokenRequests", func(x, y uint32) (interface{}, error) { return ba.GetAllUnsignedWrapTokenRequests(x, y) }},
+			{"bridge.getAllUnwrapTokenRequests", func(x, y uint32) (interface{}, error) { return ba.GetAllUnwrapTokenRequests(x, y) }},
+			{"bridge.getAllUnwrapTokenRequestsByToAddress(user1)", func(x, y uint32) (interface{}, error) {
+				return ba.GetAllUnwrapTokenRequestsByToAddress(g.User1.Address.String(), x, y)
+			}},
+			{"bridge.getAllUnwrapTokenRequestsByToAddress(user2)", func(x, y uint32) (interface{}, error) {
+				return ba.GetAllUnwrapTokenRequestsByToAddress(g.User2.Address.String(), x, y)
+			}},
+		} {
+			pagingLaw(run, q, stats)
+			qs = append(qs, q)
+		}
+		if stats["bridge.getAllWrapTokenRequests"] != "7 elements" || stats["bridge.getAllUnwrapTokenRequests"] != "5 elements" {
+			core.Fatal("paging fixture: the bridge lists %s wrap and %s unwrap requests", stats["bridge.getAllWrapTokenRequests"], stats["bridge.getAllUnwrapTokenRequests"])
+		}
+	}()
 	nonEmpty := 0
 	for _, v := range stats {
 		if strings.HasSuffix(v, "elements") && !strings.HasPrefix(v, "0 ") {
